@@ -1,5 +1,5 @@
-"""Stand-in for `blackjax` (not installed): only `rmh` (random-walk Metropolis with a
-user proposal generator), jax-traceable, same init/step surface and info.is_accepted."""
+"""Stand-in for `blackjax` (not installed): `rmh` (random-walk Metropolis with a user proposal generator) and gradient-free
+stand-ins with the call surface of `nuts` / `hmc`; jax-traceable, same init/step surface and info fields."""
 from typing import NamedTuple
 
 import jax
@@ -43,9 +43,53 @@ def rmh(logdensity_fn, proposal_generator, proposal_logdensity_fn=None):
     return SamplingAlgorithm(init, step)
 
 
-def nuts(*a, **k):
-    raise NotImplementedError("stand-in blackjax provides rmh only")
+class GradInfo(NamedTuple):
+    """what the gradient-based kernels of the real package report: an acceptance *rate*, no `is_accepted` flag (NUTS)."""
+
+    acceptance_rate: jax.Array
+    is_divergent: jax.Array
 
 
-def hmc(*a, **k):
-    raise NotImplementedError("stand-in blackjax provides rmh only")
+class HMCInfo(NamedTuple):
+    acceptance_rate: jax.Array
+    is_accepted: jax.Array
+    is_divergent: jax.Array
+
+
+CALLS = {"nuts": 0, "hmc": 0, "rmh": 0}
+
+
+def _gradient_free(logdensity_fn, step_size, inverse_mass_matrix, info_cls):
+    """Stand-in for the gradient-based kernels: a symmetric random-walk Metropolis step with per-coordinate scale
+    step_size * sqrt(diag(M^-1)).  Exactly invariant for `logdensity_fn` (which is all the library relies on); it does not
+    need the density to be differentiable, so every proposal / prior combination of the workloads can be used."""
+    imm = jnp.asarray(inverse_mass_matrix)
+    scale = step_size * jnp.sqrt(jnp.diag(imm) if imm.ndim == 2 else imm)
+
+    def init(position, rng_key=None):
+        return RWState(position, logdensity_fn(position))
+
+    def step(rng_key, state):
+        k1, k2 = jax.random.split(rng_key)
+        prop = state.position + scale * jax.random.normal(k1, state.position.shape, dtype=state.position.dtype)
+        lp = logdensity_fn(prop)
+        log_u = jnp.log(jax.random.uniform(k2, dtype=jnp.result_type(float)))
+        delta = lp - state.logdensity
+        ok = jnp.logical_and(log_u < delta, jnp.isfinite(lp))
+        rate = jnp.minimum(1.0, jnp.exp(jnp.where(jnp.isnan(delta), -jnp.inf, delta)))
+        new = RWState(jnp.where(ok, prop, state.position), jnp.where(ok, lp, state.logdensity))
+        if info_cls is GradInfo:
+            return new, GradInfo(rate, jnp.asarray(False))
+        return new, HMCInfo(rate, ok, jnp.asarray(False))
+
+    return SamplingAlgorithm(init, step)
+
+
+def nuts(logdensity_fn, step_size, inverse_mass_matrix, **kw):
+    CALLS["nuts"] += 1
+    return _gradient_free(logdensity_fn, step_size, inverse_mass_matrix, GradInfo)
+
+
+def hmc(logdensity_fn, step_size, inverse_mass_matrix, num_integration_steps=10, **kw):
+    CALLS["hmc"] += 1
+    return _gradient_free(logdensity_fn, step_size, inverse_mass_matrix, HMCInfo)
